@@ -861,6 +861,12 @@ func (em *emitter) emitUnaryOp(expr *ast.UnaryOperator, reg int8, regType reflec
 		return
 	}
 
+	// Emit code for the unary plus: the result is the operand.
+	if op == ast.OperatorAddition {
+		em.emitExprR(operand, regType, reg)
+		return
+	}
+
 	// Emit code for the negation of a complex number.
 	if exprKind == reflect.Complex64 || exprKind == reflect.Complex128 {
 		if op != ast.OperatorSubtraction {
@@ -1007,10 +1013,6 @@ func (em *emitter) emitUnaryOp(expr *ast.UnaryOperator, reg int8, regType reflec
 		default:
 			panic("unexpected operand")
 		}
-
-	// +operand
-	case ast.OperatorAddition:
-		// Nothing to do.
 
 	// -operand
 	case ast.OperatorSubtraction:
